@@ -79,6 +79,9 @@ def run(ctx):
                 if kind == "mem" and rd["threads_1s"] > rd["threads_before"]:
                     ctx.violation(f"C15/not-exited:{kind}:{rd['shape']}",
                                   f"{rd['threads_1s']} reloader thread(s) still exist 1 s after the cache was dropped ({rd['shape']})", sc)
+            if rep.get("watcher_threads_left", 0) > 0:
+                ctx.violation(f"C15/watchers-left:{kind}", f"{rep['watcher_threads_left']} file-watcher thread(s) of dropped caches still exist after further "
+                              "file events under the root", dict(kind=kind, seed=sd))
             last = rep["rounds"][-1]
             if last["threads_1s"] > 1:
                 ctx.violation(f"C15/accumulate:{kind}", f"{last['threads_1s']} reloader threads exist after {rounds} create/drop rounds",
